@@ -232,6 +232,7 @@ type settlement struct {
 type DispatchWorld struct {
 	*SysWorld
 	Model      *Model
+	orphanToks map[string]bool
 	byID       map[string]*dmsg
 	byLease    map[string]*dmsg
 	cur        map[*Task]*delivery // per worker: the delivery in progress
@@ -877,6 +878,10 @@ func (w *DispatchWorld) Publish(routeIdx int, extraHeader bool, variant ...strin
 			err := w.Node.Store.Enqueue(queue.Envelope{Route: r.Path, Target: "https://gone.example/orphan", Payload: []byte("orphan-" + tok), Headers: hdr})
 			w.Res.logf("publish orphan %s -> %s (target not configured): %s", tok, r.Path, errShort(err))
 			w.Res.probe("dispatch.orphan_published")
+			if w.orphanToks == nil {
+				w.orphanToks = map[string]bool{}
+			}
+			w.orphanToks["orphan-"+tok] = true
 			break
 		}
 		dm := &dmsg{token: tok, route: r, target: &r.Deliver[i]}
@@ -1104,7 +1109,13 @@ func (w *DispatchWorld) crashRestart() {
 		}
 		dm.conflict = true // deliveries before the crash may repeat after it
 	}
+	seenOrphan := map[string]bool{}
 	for _, it := range items {
+		if w.byID[it.ID] == nil && it.Target == "https://gone.example/orphan" && w.orphanToks[string(it.Payload)] && !seenOrphan[string(it.Payload)] {
+			// an orphan this world stored itself (once)
+			seenOrphan[string(it.Payload)] = true
+			continue
+		}
 		if w.byID[it.ID] == nil {
 			w.add("C02.appeared", "C02,C01", "dispatch/restart", "after the restart the queue holds message %s (%s) that nobody enqueued", it.ID, it.State)
 		}
